@@ -5,16 +5,22 @@ use crate::serve_engine::{run, ServeCase};
 use crate::val::Val;
 use std::io::Write;
 
-fn write_case(cases: &mut dyn Write, meta: &mut dyn Write, prop: &str, n: &mut u64, c: &ServeCase, extra_checks: &[String]) -> crate::serve_engine::Outcome {
-    let o = run(c);
-    let id = format!("{}-{}", prop, *n);
+fn write_case(cases: &mut dyn Write, meta: &mut dyn Write, prop: &str, n: &mut u64, c: &ServeCase, extra_checks: &[String]) -> Option<crate::serve_engine::Outcome> {
     *n += 1;
-    let v = Val::L(vec![o.input.clone(), o.obs.clone()]);
-    writeln!(cases, "serve {} {}", id, v.to_string()).unwrap();
-    let mut checks = o.checks.clone();
-    checks.extend_from_slice(extra_checks);
-    writeln!(meta, "{}\t{}\t{}", id, c.class.replace('\t', " ").replace('\n', " "), checks.join(",")).unwrap();
-    o
+    let (idx, exec, write) = crate::watch::gate_history(&c.class);
+    if !exec {
+        return None;
+    }
+    let o = run(c);
+    if write {
+        let id = format!("{}-{}", prop, idx);
+        let v = Val::L(vec![o.input.clone(), o.obs.clone()]);
+        writeln!(cases, "serve {} {}", id, v.to_string()).unwrap();
+        let mut checks = o.checks.clone();
+        checks.extend_from_slice(extra_checks);
+        writeln!(meta, "{}\t{}\t{}", id, c.class.replace('\t', " ").replace('\n', " "), checks.join(",")).unwrap();
+    }
+    Some(o)
 }
 
 fn raw_header<'a>(raw: &'a [(String, Vec<u8>)], name: &str) -> Option<&'a Vec<u8>> {
@@ -51,7 +57,10 @@ pub fn gen_c14(rng: &mut Rng, thorough: bool, cases: &mut dyn Write, meta: &mut 
                         add_hint(&mut c, 4, Val::opt(etag.as_ref().map(|t| t.val())));
                         c
                     };
-                    let o1 = write_case(cases, meta, prop, &mut n, &c1, &[]);
+                    let o1 = match write_case(cases, meta, prop, &mut n, &c1, &[]) {
+                        Some(o) => o,
+                        None => continue,
+                    };
                     if first_req != 0 && !thorough {
                         continue;
                     }
@@ -136,8 +145,15 @@ pub fn gen_c15(rng: &mut Rng, thorough: bool, cases: &mut dyn Write, meta: &mut 
         let mut h = c.clone();
         h.method = b"HEAD".to_vec();
         h.class = format!("HEAD-twin {}", c.class);
-        let og = write_case(cases, meta, prop, &mut n, &g, &[]);
+        let og = match write_case(cases, meta, prop, &mut n, &g, &[]) {
+            Some(o) => o,
+            None => continue,
+        };
         // run HEAD first to learn the outcome, then write it with the twin comparison attached
+        let (hidx, hexec, hwrite) = crate::watch::gate_history(&h.class);
+        if !hexec {
+            continue;
+        }
         let oh = run(&h);
         let mut checks = vec![];
         if let (Some((sg, hg)), Some((sh, hh))) = (&og.raw, &oh.raw) {
@@ -162,8 +178,11 @@ pub fn gen_c15(rng: &mut Rng, thorough: bool, cases: &mut dyn Write, meta: &mut 
         } else {
             checks.push("C15:panic".to_string());
         }
-        let id = format!("{}-{}", prop, n);
         n += 1;
+        if !hwrite {
+            continue;
+        }
+        let id = format!("{}-{}", prop, hidx);
         let v = Val::L(vec![oh.input.clone(), oh.obs.clone()]);
         writeln!(cases, "serve {} {}", id, v.to_string()).unwrap();
         let mut all = oh.checks.clone();
